@@ -586,7 +586,87 @@ func init() {
 		Old: "\t\t\t\tif _, err := s.aof.Seek(int64(s.aofsz), 0); err != nil {", New: "\t\t\t\tif _, err := s.aof.Seek(int64(s.aofsz+len(buf)), 0); err != nil {",
 		Expect: "R4.size-accounting", Key: "seek-offset", Why: "write offset left beyond the cut"})
 	mutant(&Mutant{Name: "neutral-loadaof-cut-variable", Props: []string{"C04"}, File: fAOF, Neutral: true,
-		Old:   "\t\t\t\ts.aofsz -= len(buf)\n\t\t\t\tif err := s.aof.Truncate(int64(s.aofsz)); err != nil {\n\t\t\t\t\treturn err\n\t\t\t\t}\n\t\t\t\tif _, err := s.aof.Seek(int64(s.aofsz), 0); err != nil {",
-		New:   "\t\t\t\tcut := int64(s.aofsz - len(buf))\n\t\t\t\tif err := s.aof.Truncate(cut); err != nil {\n\t\t\t\t\treturn err\n\t\t\t\t}\n\t\t\t\ts.aofsz = int(cut)\n\t\t\t\tif _, err := s.aof.Seek(cut, 0); err != nil {",
-		Why:   "the cut offset held in a local"})
+		Old: "\t\t\t\ts.aofsz -= len(buf)\n\t\t\t\tif err := s.aof.Truncate(int64(s.aofsz)); err != nil {\n\t\t\t\t\treturn err\n\t\t\t\t}\n\t\t\t\tif _, err := s.aof.Seek(int64(s.aofsz), 0); err != nil {",
+		New: "\t\t\t\tcut := int64(s.aofsz - len(buf))\n\t\t\t\tif err := s.aof.Truncate(cut); err != nil {\n\t\t\t\t\treturn err\n\t\t\t\t}\n\t\t\t\ts.aofsz = int(cut)\n\t\t\t\tif _, err := s.aof.Seek(cut, 0); err != nil {",
+		Why: "the cut offset held in a local"})
+}
+
+func init() {
+	// ---- rules added after the third batch of seeded changes -----------------
+	fScanner := "internal/server/scanner.go"
+	fFence := "internal/server/fence.go"
+	fGlob := "internal/glob/glob.go"
+	mutant(&Mutant{Name: "scan-skip-steps-cursor", Props: []string{"C11"}, File: fColl,
+		Old:    "\titer := func(_ string, obj *object.Object) bool {\n\t\tcount++\n\t\tif count <= offset {\n\t\t\treturn true\n\t\t}",
+		New:    "\titer := func(_ string, obj *object.Object) bool {\n\t\tcount++\n\t\tif count <= offset {\n\t\t\tif count&(yieldStep-1) == (yieldStep - 1) {\n\t\t\t\tnextStep(count, cursor, deadline)\n\t\t\t}\n\t\t\treturn true\n\t\t}",
+		Expect: "R11.cursor-protocol", Key: "Scan/callback1", Why: "the seeded change C11: a skipped item steps the cursor"})
+	mutant(&Mutant{Name: "scan-double-step", Props: []string{"C11"}, File: fColl,
+		Old:    "\titer := func(_ string, obj *object.Object) bool {\n\t\tcount++\n\t\tif count <= offset {\n\t\t\treturn true\n\t\t}\n\t\tnextStep(count, cursor, deadline)",
+		New:    "\titer := func(_ string, obj *object.Object) bool {\n\t\tcount++\n\t\tif count <= offset {\n\t\t\treturn true\n\t\t}\n\t\tnextStep(count, cursor, deadline)\n\t\tif cursor != nil && obj.Expires() != 0 {\n\t\t\tcursor.Step(1)\n\t\t}",
+		Expect: "R11.cursor-protocol", Key: "Scan/callback1", Why: "an item can step twice"})
+	mutant(&Mutant{Name: "globmatch-literal-stops", Props: []string{"C12"}, File: fScanner,
+		Old:    "\t\tok, _ := glob.Match(pattern, val)\n\t\tif ok {\n\t\t\treturn true, true\n\t\t}",
+		New:    "\t\tok, _ := glob.Match(pattern, val)\n\t\tif ok {\n\t\t\treturn true, len(sw.globs) > 1 || glob.IsGlob(pattern)\n\t\t}",
+		Edits:  []Edit{{fScanner, "\treturn ok, true, nil\n}", "\treturn ok, kg, nil\n}"}},
+		Expect: "R12.filters-never-stop", Key: "globMatch/keep-going", Why: "the seeded change C12"})
+	mutant(&Mutant{Name: "testobject-mismatch-stops", Props: []string{"C12"}, File: fScanner,
+		Old:    "\tif !match {\n\t\treturn false, kg, nil\n\t}",
+		New:    "\tif !match {\n\t\treturn false, kg && !sw.matchValues, nil\n\t}",
+		Expect: "R12.filters-never-stop", Key: "testObject/keep-going", Why: "a value mismatch ends a SEARCH"})
+	mutant(&Mutant{Name: "pushobject-stops-on-filter", Props: []string{"C12"}, File: fScanner,
+		Old:    "\t\tif !ok {\n\t\t\treturn keepGoing, nil\n\t\t}",
+		New:    "\t\tif !ok {\n\t\t\treturn sw.numberItems == 0, nil\n\t\t}",
+		Expect: "R12.filters-never-stop", Key: "pushObject/stop-reasons", Why: "after the first hit a filtered object ends the scan"})
+	mutant(&Mutant{Name: "glob-succ-unguarded", Props: []string{"C12"}, File: fGlob,
+		Old:    "\t\ta = pattern[:n]\n\t\tif a[n-1] == 0xFF {\n\t\t\tb = string(append([]byte(a), 0x00))\n\t\t} else {\n\t\t\tb = string(append([]byte(a[:n-1]), a[n-1]+1))\n\t\t}",
+		New:    "\t\ta = pattern[:n]\n\t\tb = string(append([]byte(a[:n-1]), a[n-1]+1))",
+		Expect: "R12.far-limit-covers-prefix", Key: "Parse/asc/successor-unguarded", Why: "0xFF+1 wraps: the limit falls below the prefix"})
+	mutant(&Mutant{Name: "glob-asc-append-ff", Props: []string{"C12"}, File: fGlob,
+		Old:    "\t\t\tb = string(append([]byte(a[:n-1]), a[n-1]+1))\n\t\t}\n\t}\n\tg.Limits",
+		New:    "\t\t\tb = string(append([]byte(a), 0x7F))\n\t\t}\n\t}\n\tg.Limits",
+		Expect: "R12.far-limit-covers-prefix", Key: "Parse/asc/append-127", Why: "a new append-form bound (not the listed known finding) is still reported"})
+	mutant(&Mutant{Name: "readmessages-carry-skip-copy", Props: []string{"C16"}, File: fServer,
+		Old:    "\tif len(data) > 0 {\n\t\trd.buf = append(rd.buf[:0], data...)\n\t} else if len(rd.buf) > 0 {",
+		New:    "\tif len(data) > 0 {\n\t\tif len(data) != len(rd.buf) {\n\t\t\trd.buf = append(rd.buf[:0], data...)\n\t\t}\n\t} else if len(rd.buf) > 0 {",
+		Expect: "R16.carry-content", Key: "ReadMessages/rd.buf", Why: "the seeded change C16"})
+	mutant(&Mutant{Name: "readmessages-carry-not-cleared", Props: []string{"C16"}, File: fServer,
+		Old:    "\tif len(data) > 0 {\n\t\trd.buf = append(rd.buf[:0], data...)\n\t} else if len(rd.buf) > 0 {\n\t\trd.buf = rd.buf[:0]\n\t}\n\treturn msgs, err",
+		New:    "\tif len(data) > 0 {\n\t\trd.buf = append(rd.buf[:0], data...)\n\t}\n\treturn msgs, err",
+		Expect: "R16.carry-content", Key: "ReadMessages/rd.buf", Why: "a completed command's head is prepended to the next packet"})
+	mutant(&Mutant{Name: "loadaof-carry-not-cleared", Props: []string{"C04", "C16"}, File: fAOF,
+		Old:    "\t\t} else if len(buf) > 0 {\n\t\t\tbuf = buf[:0]\n\t\t}\n\t}\n}",
+		New:    "\t\t}\n\t}\n}",
+		Expect: "R16.carry-content", Key: "loadAOF/buf", Why: "stale carry is prepended to the next chunk during start-up"})
+	mutant(&Mutant{Name: "neutral-readmessages-carry-always-copy", Props: []string{"C16"}, File: fServer, Neutral: true,
+		Old: "\tif len(data) > 0 {\n\t\trd.buf = append(rd.buf[:0], data...)\n\t} else if len(rd.buf) > 0 {\n\t\trd.buf = rd.buf[:0]\n\t}\n\treturn msgs, err",
+		New: "\trd.buf = append(rd.buf[:0], data...)\n\treturn msgs, err",
+		Why: "copying an empty remainder empties the carry as well"})
+	mutant(&Mutant{Name: "jsonstring-go-quote", Props: []string{"C17"}, File: fJSON,
+		Old:    "\t\t\td, _ := json.Marshal(s)\n\t\t\treturn string(d)\n",
+		New:    "\t\t\t_, _ = json.Marshal(s)\n\t\t\treturn strconv.Quote(s)\n",
+		Expect: "R17.string-encoder", Key: "jsonString/slow-path-json-encoder", Why: "the seeded change C17 (Go quoting is not JSON)"})
+	mutant(&Mutant{Name: "jsonstring-del-and-high-bytes-fast", Props: []string{"C17"}, File: fJSON,
+		Old:    "func jsonString(s string) string {\n\tfor i := 0; i < len(s); i++ {\n\t\tif s[i] < ' ' || s[i] == '\\\\' || s[i] == '\"' || s[i] > 126 {",
+		New:    "func jsonString(s string) string {\n\tfor i := 0; i < len(s); i++ {\n\t\tif s[i] < ' ' || s[i] == '\\\\' || s[i] == '\"' {",
+		Expect: "R17.string-encoder", Key: "jsonString/byte-test", Why: "invalid UTF-8 is copied into the reply"})
+	mutant(&Mutant{Name: "appendjsonstring-skips-first-byte", Props: []string{"C17"}, File: fJSON,
+		Old:    "func appendJSONString(b []byte, s string) []byte {\n\tfor i := 0; i < len(s); i++ {",
+		New:    "func appendJSONString(b []byte, s string) []byte {\n\tfor i := 1; i < len(s); i++ {",
+		Expect: "R17.string-encoder", Key: "appendJSONString/scans-every-byte", Why: "a leading quote is emitted raw"})
+	mutant(&Mutant{Name: "neutral-jsonstring-stricter-test", Props: []string{"C17"}, File: fJSON, Neutral: true,
+		Old: "func jsonString(s string) string {\n\tfor i := 0; i < len(s); i++ {\n\t\tif s[i] < ' ' || s[i] == '\\\\' || s[i] == '\"' || s[i] > 126 {",
+		New: "func jsonString(s string) string {\n\tfor i := 0; i < len(s); i++ {\n\t\tif s[i] < 0x20 || s[i] == '\\\\' || s[i] == '\"' || s[i] >= 0x7f || s[i] == '<' {",
+		Why: "a stricter fast-path test"})
+	mutant(&Mutant{Name: "roam-remove-no-revisit", Props: []string{"C20"}, File: fFence,
+		Old:    "\t\t\toldNearbys[i] = oldNearbys[len(oldNearbys)-1]\n\t\t\toldNearbys = oldNearbys[:len(oldNearbys)-1]\n\t\t\ti--\n",
+		New:    "\t\t\toldNearbys = append(oldNearbys[:i], oldNearbys[i+1:]...)\n",
+		Expect: "R20.remove-revisits-slot", Key: "fenceMatchRoam→oldNearbys[i]", Why: "the seeded change C20"})
+	mutant(&Mutant{Name: "roam-swap-remove-no-revisit", Props: []string{"C20"}, File: fFence,
+		Old:    "\t\t\toldNearbys = oldNearbys[:len(oldNearbys)-1]\n\t\t\ti--\n",
+		New:    "\t\t\toldNearbys = oldNearbys[:len(oldNearbys)-1]\n",
+		Expect: "R20.remove-revisits-slot", Key: "fenceMatchRoam→oldNearbys[i]", Why: "swap-remove without re-examining slot i"})
+	mutant(&Mutant{Name: "neutral-roam-ordered-remove", Props: []string{"C20"}, File: fFence, Neutral: true,
+		Old: "\t\t\toldNearbys[i] = oldNearbys[len(oldNearbys)-1]\n\t\t\toldNearbys = oldNearbys[:len(oldNearbys)-1]\n\t\t\ti--\n",
+		New: "\t\t\toldNearbys = append(oldNearbys[:i], oldNearbys[i+1:]...)\n\t\t\ti--\n",
+		Why: "order-preserving removal that re-examines slot i"})
 }
